@@ -79,7 +79,8 @@ def emit_tag(f):
     a = annot(f.typ, sp)
     if sp.get('omit_scalar_annot') and f.typ[0] in ('bool', 'i8', 'i16', 'i32', 'i64', 'double', 'string', 'binary'):
         a = ''
-    pad = ' ' if sp.get('spaces') else ''
+    if sp.get('spaces'):
+        a = a.replace('<', ' < ').replace('>', ' >').replace(':', ' : ')
     parts = [str(f.id), f.req]
     if sp.get('omit_default_req') and f.req == 'default' and not a and not f.nocopy:
         parts = [str(f.id)]
@@ -88,7 +89,10 @@ def emit_tag(f):
             parts.append(a)
         if f.nocopy:
             parts.append('nocopy')
-    body = (',' + pad).join(pad + p if i else p for i, p in enumerate(parts)) if pad else ','.join(parts)
+    if sp.get('spaces'):
+        body = ' ,  '.join(' ' + p + ' ' for p in parts)
+    else:
+        body = ','.join(parts)
     if sp.get('thrift'):
         return 'thrift:"%s,%s"' % (f.name.lower(), body)
     if sp.get('both'):
